@@ -25,8 +25,20 @@ def _case(seed, i, tier):
     mc = (i % 8 == 5)
     geoms = RS.GEOMS if tier == "thorough" else ("lsn", "usn", "cdn", "lsn", "ldn", "udn")
     np_choices = (1, 1, 1, 2) if tier == "thorough" else ((2,) if i % 12 == 7 else (1,))
-    case = RS.make_case(rng, allow_method_change=mc, faults_ok=(tier == "thorough"),
+    case = RS.make_case(rng, allow_method_change=mc, faults_ok=True,
                         geoms=geoms, np_choices=np_choices)
+    if i % 6 == 2 and not any(op.get("tag") == "outside" for op in case["ops"]):
+        # stratum: a regrid that raises half-way, then the repair of only the bad values
+        extra = RS.make_case(core.stream(s, "outside"), geoms=(case["workload"]["geometry"],))
+        pool = RS.settings_pool(case["workload"]["geometry"])
+        good = dict(pool[1 + (i // 6) % (len(pool) - 1)])
+        bad = dict(RS.OUTSIDE[(i // 6) % len(RS.OUTSIDE)])
+        good = {k: v for k, v in good.items() if k not in bad}
+        case["ops"] = [{"op": "regrid", "s": dict(good, **bad), "tag": "outside"},
+                       {"op": "regrid", "s": good, "tag": "repair"}] + case["ops"][-2:]
+        case["ops"][-2] = {"op": "regrid", "s": dict(good), "tag": "repair-final"} \
+            if i % 12 == 2 else case["ops"][-2]
+        del extra
     if mc and not RS.has_method_change(case):
         case["ops"][-2]["s"]["nonorthogonal_spacing_method"] = (
             "poloidal_orthogonal_combined" if RS.method_of(case["s0"]) == "combined"
